@@ -1693,6 +1693,20 @@ def c20_store_aliasing(res, rng):
             if (r1.mu, r1.sigma, r2.mu, r2.sigma) != (keep["b"][0], keep["b"][1], keep["b"][0], keep["b"][1]):
                 res.fail("property", "C20: %s: two rebuilds from the same stored values differ from them: %r %r vs %r" % (
                     kind, (r1.mu, r1.sigma), (r2.mu, r2.sigma), keep["b"]), dict(type="c20alias", kind=kind)); break
+            # a team and its deepcopy twin (same ids, same values) tied in one game are two teams, rated like rebuilt players
+            try:
+                squad = [model.rating(mu=rng.gauss(25, 6), sigma=rng.uniform(2, 8)) for _ in range(rng.randint(1, 3))]
+                twin = copy.deepcopy(squad)
+                third = [model.rating(mu=rng.gauss(25, 6), sigma=rng.uniform(2, 8))]
+                fresh = MODEL_CLS[kind]()
+                reb = [[fresh.rating(mu=p.mu, sigma=p.sigma) for p in t] for t in (squad, twin, third)]
+                gt = model.rate([squad, twin, third], ranks=[1, 1, 2])
+                wt_ = fresh.rate(reb, ranks=[1, 1, 2])
+                if [[(p.mu, p.sigma) for p in t] for t in gt] != [[(p.mu, p.sigma) for p in t] for t in wt_]:
+                    res.fail("property", "C20: %s: a squad tied with its deepcopy twin (same ids, same values) is not rated like rebuilt players: %r vs %r" % (
+                        kind, [[(p.mu, p.sigma) for p in t] for t in gt], [[(p.mu, p.sigma) for p in t] for t in wt_]), dict(type="c20alias", kind=kind)); break
+            except Exception as e:  # noqa: BLE001
+                res.fail("property", "C20: %s: a game between a squad and its deepcopy twin raised %s" % (kind, type(e).__name__), dict(type="c20alias", kind=kind)); break
             # snapshot vs live: same id, different values, in one lobby of >= 3 teams
             live = [model.rating(mu=rng.gauss(25, 6), sigma=rng.uniform(2, 8), name="p%d" % i) for i in range(3)]
             snaps = copy.deepcopy(live)
